@@ -5,6 +5,16 @@ import os
 ROOT = os.path.dirname(os.path.dirname(os.path.abspath(__file__)))
 
 CHECKS = {
+ "C06": dict(
+    text="Partial. Theorems C06_stream_and_settle_once (for every queue of writes and every pattern of short writes and would-blocks over the successive send calls: received ++ pending = concatenation of the buffers in issue order; a promise settled at most once and never while queued) and C06_fulfilled_with_full_size, by induction over the drain loop against an arbitrary socket oracle. Tied to /repo by scripting the outcome of every send call of a live Transport through the PISTACHE_VERIF hook (all scripts up to 3-4 outcomes, loop thread and foreign thread) and comparing bytes, promise values and call counts. Residue: kernel buffering/real EAGAIN timing is the oracle; liveness is observed, not proved; sendfile buffers not exercised.",
+    note="Closed under the global context. The cross-thread queue is taken as FIFO (C13). Trusted: harness/h_transport.cc, hook in transport.cc.",
+    technique="Coq proof (invariant over the write-drain loop with a socket oracle) + fault-scripted differential correspondence on a live transport",
+    design="§2 C06"),
+ "C07": dict(
+    text="Partial. Theorems C07_returns_to_loop_on_would_block (the first would-block ends the drain attempt: no further send on that descriptor in this event, tail kept at the front with its progress, write interest armed), C07_bounded_calls, C07_resume_delivers. Tied to /repo by a live single-worker listener with a really stalled peer (kernel buffers full): another connection must be answered within a third of the stall, the stalled descriptor must not be hammered, and everything must arrive after the stall. Residue: wall-clock bounds and epoll re-arm are runtime behaviour.",
+    note="Closed under the global context. Trusted: harness/h_transport.cc timing margins, hook in transport.cc.",
+    technique="Coq proof of the loop-control logic + live stalled-peer measurement through the send hook",
+    design="§2 C07"),
  "C16": dict(
     text="Partial. Theorems C16_content_length_roundtrip (all of 0..2^64-1, via a general decimal print/parse round-trip lemma), C16_connection/encoding/expect_roundtrip (every enum value), C16_host_roundtrip, C16_lookup_first_occurrence and C16_lookup_any_capitalisation (the case-insensitive collection returns the first occurrence under every capitalisation, for any header list). Cache-Control directive lists, Date, Content-Type and the string-valued headers are decided by API-level and text-level double round trips compared with the model / checked by the oracle.",
     note="Closed under the global context. Open known finding C16-server-multitoken (multi-token Server reads back as one token; text identical). Host with port 0 is an excluded corner. Trusted: harness/h_headers.cc, generator.",
@@ -114,7 +124,7 @@ def main():
     }
     json.dump(m, open(os.path.join(ROOT, "MANIFEST.json"), "w"), indent=1)
 
-HOOK_COMMITS = ["1494318", "2d5a8aa"]
+HOOK_COMMITS = ["1494318", "2d5a8aa", "19ff1fe"]
 
 if __name__ == "__main__":
     main()
